@@ -173,6 +173,20 @@ def rule_m8(repo):
     return res
 
 
+def rule_m9(repo):
+    """The shape rule of C18.R9 for the macros outside the veriT reconstruction: a fast path reads the
+    parts of its goal or of a premise by position only after testing the head connective.  The expansion
+    fails (or proves something else) on a goal of another shape; the evaluation must not accept it."""
+    from .c18 import shape_sites
+    res = RuleResult('C04.M9', 'a fast path takes its goal or a premise apart only after testing the head connective', floor=5)
+    for mi in macro_index(repo):
+        if mi.eval is None or mr.verit_macros(mi):
+            continue
+        for key, ok, why, loc in shape_sites(repo, mi):
+            res.add(key, ok, why, loc)
+    return res
+
+
 def rule_m7(repo):
     """The `auto` macro evaluates through logic.auto.norm / solve, whose process-wide memo tables are keyed by the
     term alone: what is stored must have been obtained without side conditions (the rule of C10.V4)."""
@@ -183,4 +197,4 @@ def rule_m7(repo):
 def rules(repo):
     m1 = mr.hyps_rule(repo, 'C04.M1', mr.all_macros, floor=95)
     m2 = mr.zip_rule(repo, 'C04.M2', mr.macro_eval_functions(repo), floor=4)
-    return [m1, m2, rule_m3(repo), rule_m5(repo), rule_m6(repo), rule_m7(repo), rule_m8(repo)]
+    return [m1, m2, rule_m3(repo), rule_m5(repo), rule_m6(repo), rule_m7(repo), rule_m8(repo), rule_m9(repo)]
